@@ -6,7 +6,7 @@ from engine.cfg import cfg_of
 from engine.callgraph import CallGraph
 from engine.defuse import defuse_of
 from engine.embedded import struct_sites, fmt_size
-from .common import calls_named, package_calls, contained
+from .common import calls_named, package_calls, contained, before
 from .c02 import _Sub
 from . import c13, c11
 
@@ -156,7 +156,7 @@ def r1(ctx):
             capped = False
             tychk = False
             for g in walk_own(fi.node):
-                if isinstance(g, ast.If) and g.lineno < node.lineno and any(isinstance(s, ast.Raise) for s in g.body):
+                if isinstance(g, ast.If) and before(fi, g, node) and any(isinstance(s, ast.Raise) for s in g.body):
                     t = norm(g.test)
                     if t.startswith("%s > " % var):
                         capped = True
@@ -269,7 +269,7 @@ def r2(ctx):
         caps = [g for g in walk_own(fi.node) if isinstance(g, ast.If) and " > MAX_BYTES_LENGTH" in norm(g.test) and any(isinstance(x, ast.Raise) for x in g.body)]
         ty = [g for g in walk_own(fi.node) if isinstance(g, ast.If) and norm(g.test).startswith("not isinstance(") and any(isinstance(x, ast.Raise) for x in g.body)]
         rd = [c for c in calls_named(fi, "read")]
-        ok = len(caps) == 1 and len(ty) == 1 and len(rd) >= 1 and ty[0].lineno < caps[0].lineno < min(c.lineno for c in rd)
+        ok = len(caps) == 1 and len(ty) == 1 and len(rd) >= 1 and before(fi, ty[0], caps[0]) and all(before(fi, caps[0], c) for c in rd)
         if ok:
             cfg = cfg_of(fi)
             tn = [n for n in cfg.nodes if n.kind == "test" and n.stmt is ty[0]]
